@@ -15,8 +15,40 @@ def crc8_table():
     return t
 
 
+def prepare(w):
+    """inline single-caller static helpers of the sender's translation unit into their callers (once per run), so that the rules below keep
+    seeing the flush/append algorithms as one function after an extract-function refactoring"""
+    if getattr(w, "_c01_prepared", False):
+        return w._c01_inlined
+    from .. import inline
+    P = w.P
+    tus = set()
+    for f in P.repo_functions():
+        for i in f.calls():
+            if i.callee is None and len(i.args) == 2:
+                src = rules.load_source(f, i.get("fptr"))
+                if src and src[0] == "global":
+                    tus.add(f.relfile)
+    done = {}
+    for f in list(P.repo_functions()):
+        if f.relfile not in tus:
+            continue
+        def pred(g, f=f):
+            if not g.internal or g.relfile != f.relfile:
+                return False
+            cs = P.callers().get(g.name, [])
+            return bool(cs) and all(cf.name == f.name for cf, ci in cs) and g.name not in P.addr_taken()
+        got = inline.inline_helpers(P, f.name, pred)
+        if got:
+            done[f.name] = got
+    w._c01_prepared = True
+    w._c01_inlined = done
+    return done
+
+
 def send_roles(w):
     P = w.P
+    prepare(w)
     roles = {}
     # flush: calls through the write-callback global
     cb_globals = set()
@@ -82,6 +114,7 @@ def run(chk, w):
                        "the byte emitted is the byte folded into the CRC (CRC); the append offset is the current fill index, not a stale copy (IDX); a message "
                        "joins a non-empty batch only behind the capacity comparison and the capacity is only ever set to >= 64 (CAP); the append routine is "
                        "called only behind admission (WMC). 'Exactly once' and byte-identity with the arguments are not decided.")
+    chk.extra["inlined_helpers"] = w._c01_inlined
     chk.extra["roles"] = {"flush": [f.name for f in roles["flush"]], "staging": sorted(roles["staging"]), "batch": sorted(roles["batch"]),
                           "fill_index": sorted(roles["fill_index"]), "append": sorted({f.name for f, i in roles["append"]})}
 
@@ -142,6 +175,24 @@ def run(chk, w):
                     if x is not None and x.op == "xor":
                         folds.append((i, x))
                         crc_cells.add(i["ptr"]["id"])
+    # copies of the running CRC (a helper's parameter/result slot, the caller's own variable) are CRC cells as well
+    grew = True
+    while grew:
+        grew = False
+        for i in fl.all_insts():
+            if i.op == "store" and i["ptr"].get("k") == "inst" and fl.insts[i["ptr"]["id"]].op == "alloca" and i["ptr"]["id"] not in crc_cells:
+                srcs = [i["val"]]
+                vi = fl.resolve(rules.strip_casts(fl, i["val"]))
+                if vi is not None and vi.op == "phi":
+                    srcs = [v for b, v in vi["incoming"]]
+                ok = bool(srcs)
+                for sv in srcs:
+                    ld = fl.resolve(rules.strip_casts(fl, sv))
+                    if not (ld is not None and ld.op == "load" and ld["ptr"].get("k") == "inst" and ld["ptr"]["id"] in crc_cells):
+                        ok = False
+                if ok:
+                    crc_cells.add(i["ptr"]["id"])
+                    grew = True
     for s in stores:
         val = rules.strip_casts(fl, s["val"])
         c = rules.const_of(fl, s["val"])
@@ -209,6 +260,22 @@ def run(chk, w):
             chk.ok("C01-CRC", 1, {"fold": st.loc(), "byte": "same expression as the emitted byte"})
         else:
             chk.violation("C01-CRC", fl.name, "fold", st.loc(), "the byte folded into the CRC is not the byte that is emitted")
+    # the accumulator is never re-initialised between a fold and the emission of the trailer (a CRC restarted per chunk covers only the last chunk)
+    crc_emits = []
+    for s_ in stores:
+        vi_ = fl.resolve(rules.strip_casts(fl, s_["val"]))
+        if vi_ is not None and vi_.op == "xor":
+            vi_ = fl.resolve(rules.strip_casts(fl, vi_["a"]))
+        if vi_ is not None and vi_.op == "load" and vi_["ptr"].get("k") == "inst" and vi_["ptr"]["id"] in crc_cells:
+            crc_emits.append(s_)
+    for i in fl.all_insts():
+        if i.op == "store" and i["ptr"].get("k") == "inst" and i["ptr"]["id"] in crc_cells and rules.const_of(fl, i["val"]) is not None:
+            after_fold = any(rules.exists_path(fl, st, lambda x, i=i: x.id == i.id, None) for (st, x_) in folds)
+            before_emit = any(rules.exists_path(fl, i, lambda x, e=e: x.id == e.id, None) for e in crc_emits)
+            if after_fold and before_emit:
+                chk.violation("C01-CRC", fl.name, "reinit", i.loc(), "the CRC accumulator is re-initialised at line %d on a path between a fold and the trailer: the transmitted CRC does not cover the whole payload" % i.line)
+            else:
+                chk.ok("C01-CRC", 1, {"init": i.loc()})
     if emitted_crc:
         chk.ok("C01-CRC", 1, {"trailer": "CRC cell emitted"})
     else:
